@@ -10,6 +10,16 @@ MN = 'maltoolbox.attackgraph.node'
 SCALARS = ('type', 'name', 'id', 'asset', 'defense_status', 'existence_status', 'is_viable', 'is_necessary', 'mitre_info')
 
 
+def dict_content(o, h, d0, d1):
+    """dict d1 (post heap) has the keys of d0 (pre heap), equal scalar values, and fresh containers of the same class where d0 has containers"""
+    k = z3.Const('k!dc2', Val)
+    return z3.And(FA([k], h.has(d1, k) == o.has(d0, k), [h.has(d1, k)]),
+                  FA([k], z3.Implies(o.has(d0, k), z3.If(is_VRef(o.val(d0, k)),
+                                                         z3.And(is_VRef(h.val(d1, k)), v_a(h.val(d1, k)) >= o.alloc, h.cls(v_a(h.val(d1, k))) == o.cls(v_a(o.val(d0, k)))),
+                                                         h.val(d1, k) == o.val(d0, k))), [h.val(d1, k)]),
+                  h.size(d1) == o.size(d0))
+
+
 def install(reg: Registry):
     def requires(c):
         o = c.old
@@ -42,6 +52,15 @@ def install(reg: Registry):
             ('extras-fresh', z3.Implies(z3.Not(was), z3.And(fresh(h.f('extras', r)), h.cls(h.f('extras', r)) == CLS_DICT))),
             ('ttc-fresh-or-none', z3.Implies(z3.Not(was), copied_opt('ttc'))),
             ('attributes-fresh-or-none', z3.Implies(z3.Not(was), copied_opt('attributes'))),
+            # content (first level; nested containers are fresh copies of the same class): same serialized content as the original
+            ('tags-content', z3.Implies(z3.Not(was), FA([z3.Int('j!nd')], z3.Implies(z3.And(0 <= z3.Int('j!nd'), z3.Int('j!nd') < o.len(o.f('tags', me)),
+                                                                                           z3.Not(is_VRef(o.at(o.f('tags', me), z3.Int('j!nd'))))),
+                                                                                    h.at(h.f('tags', r), z3.Int('j!nd')) == o.at(o.f('tags', me), z3.Int('j!nd'))),
+                                                        [h.at(h.f('tags', r), z3.Int('j!nd'))]))),
+            ('extras-content', z3.Implies(z3.Not(was), dict_content(o, h, o.f('extras', me), h.f('extras', r)))),
+            ('ttc-content', z3.Implies(z3.And(z3.Not(was), is_VRef(o.f('ttc', me))), dict_content(o, h, v_a(o.f('ttc', me)), v_a(h.f('ttc', r))))),
+            ('attributes-content', z3.Implies(z3.And(z3.Not(was), is_VRef(o.f('attributes', me))),
+                                              dict_content(o, h, v_a(o.f('attributes', me)), v_a(h.f('attributes', r))))),
             ('separation', z3.Implies(z3.Not(was), fresh_closed(h, o.alloc))),
             ('memo-updated', z3.Implies(z3.Not(was), z3.And(h.has(memo, VRef(me)), h.val(memo, VRef(me)) == VRef(r)))),
             ('memo-other-nodes', z3.Implies(z3.Not(was), FA([x], z3.Implies(z3.And(x >= 0, x < o.alloc, x != me, o.cls(x) != CLS_LIST, o.cls(x) != CLS_DICT, x != memo),
